@@ -14,6 +14,7 @@ import (
 	"verif/mc/core"
 	"verif/mc/gocheck"
 	"verif/mc/pipe"
+	"verif/mc/seamctl"
 )
 
 const modPath = "x.io/test"
@@ -193,7 +194,11 @@ func checkProgs(c *core.Ctx, progs []Prog) {
 	ok1 := generate(c, root, dirs, report("generate"))
 	t1, _ := pipe.ReadTree(root)
 	// second generation on the result of the first
+	// (built with the map-order seam the second run iterates every map of the library - generators
+	// included - in DESCENDING key order, the first one in ascending order)
+	seamctl.Set(1, nil)
 	ok2 := generate(c, root, ok1, report("regenerate"))
+	seamctl.Set(0, nil)
 	t2, _ := pipe.ReadTree(root)
 	for _, d := range ok2 {
 		if genFileOf(t1, d) == "" {
@@ -335,7 +340,7 @@ func replay(c *core.Ctx, raw json.RawMessage) {
 func init() {
 	core.Register(&core.Prop{
 		ID: "C17", Level: "model_checking", Run: run, Replay: replay, Shards: 4,
-		Rule:        "every root struct with 1..2 fields (ordered) over 16 field kinds (scalars, string, slices/maps of scalars, tagged same-package struct, untagged dependency struct, 3-level nesting through untagged dependencies, defined scalar, defined map, error, any, named interface, field of an instantiated generic struct) x enabling tag on package vs on type x gengo:deepcopy:interfaces on/off x generic root (bare type-parameter field); each package generated TWICE by the real generator through the real pipeline (outputs compared), compiled with the package, and exercised by a harness-written check (nil, DeepEqual, mutate every reachable slice/map of the copy then compare the original with a snapshot, DeepCopyInto). Non-trivial = 2 fields; states = distinct (field count, tag placement, interfaces, failed?)",
+		Rule:        "(seam build: the second generation runs under descending map order in library and generator) every root struct with 1..2 fields (ordered) over 16 field kinds (scalars, string, slices/maps of scalars, tagged same-package struct, untagged dependency struct, 3-level nesting through untagged dependencies, defined scalar, defined map, error, any, named interface, field of an instantiated generic struct) x enabling tag on package vs on type x gengo:deepcopy:interfaces on/off x generic root (bare type-parameter field); each package generated TWICE by the real generator through the real pipeline (outputs compared), compiled with the package, and exercised by a harness-written check (nil, DeepEqual, mutate every reachable slice/map of the copy then compare the original with a snapshot, DeepCopyInto). Non-trivial = 2 fields; states = distinct (field count, tag placement, interfaces, failed?)",
 		Assumptions: []string{"pointer fields, slices of structs and slices over type parameters are outside the stated domain"},
 	})
 }
